@@ -26,6 +26,7 @@ ASSUMPTIONS = [
 TOL_ADJ = 1e-10
 TOL_FD = 1e-6
 TOL_MODEL = 1e-9
+TOL_ROT = 5e-2     # DM rotation only: inverse warp is an approximate adjoint (see run_dm)
 
 
 # ------------------------------------------------------------------------------------------------
@@ -94,10 +95,25 @@ def close(a, b, tol):
     return e <= tol * s, f'max abs diff {e:.3e} (scale {s:.3e})'
 
 
+def pure2(fn, *args, **kw):
+    """call a routine documented as pure twice on the same argument objects: the arrays handed in must be left untouched
+    and the second answer must equal the first.  returns (first result, '' or a description of the impurity)"""
+    snap = [a.copy() if isinstance(a, np.ndarray) else None for a in args]
+    r1 = fn(*args, **kw)
+    keep = tuple(np.array(v, copy=True) for v in r1) if isinstance(r1, tuple) else np.array(r1, copy=True)
+    for a, b in zip(args, snap):
+        if b is not None and not np.array_equal(a, b):
+            return keep, 'an argument array was modified in place'
+    r2 = fn(*args, **kw)
+    same = all(np.array_equal(u, v) for u, v in zip(r2, keep)) if isinstance(keep, tuple) else np.array_equal(np.asarray(r2), keep)
+    return keep, '' if same else 'a second call with the same arguments returned a different result'
+
+
 class Result:
     def __init__(self, ok, detail, model_line=None, impl=None, shape=None, kind='c', nontrivial=True, tag=None, extra=()):
         self.ok, self.detail = ok, detail
         self.extra = list(extra)      # non-blocking model-fidelity comparisons: (line, impl, shape, kind, label)
+        self.fidelity = []            # non-blocking observations about forward semantics
         self.model_line, self.impl, self.shape, self.kind = model_line, impl, shape, kind
         self.nontrivial, self.tag = nontrivial, tag
 
@@ -115,10 +131,18 @@ class Spy:
 
         def mk(name, fwd):
             f = getattr(cls, name)
+            import inspect
+            sig = inspect.signature(f)
 
-            def w(ary, Q, samples_out, shift=(0, 0)):
-                self.calls.append((fwd, tuple(ary.shape), Q, samples_out, shift))
-                return f(ex, ary, Q, samples_out, shift)
+            def w(*args, **kwargs):
+                try:          # record what the forward asked for; never let the recording break the call
+                    b = sig.bind(ex, *args, **kwargs)
+                    b.apply_defaults()
+                    a = b.arguments
+                    self.calls.append((fwd, tuple(a['ary'].shape), a['Q'], a['samples_out'], a.get('shift', (0, 0))))
+                except Exception:
+                    self.calls.append(None)
+                return f(ex, *args, **kwargs)
             return w
         ex.dft2, ex.idft2 = mk('dft2', True), mk('idft2', False)
         return self
@@ -128,6 +152,8 @@ class Spy:
             self.ex.__dict__.pop(nm, None)
 
     def bases(self, i):
+        if self.calls[i] is None:
+            raise KeyError('call not recorded')
         fwd, shp, Q, so, shift = self.calls[i]
         key = self.ex._key(samples_in=shp, Q=Q, samples_out=so, shift=shift, fwd=fwd)
         return np.array(self.ex.Eout[key]), np.array(self.ex.Ein[key])
@@ -150,20 +176,30 @@ def run_mdft(p):
     Q = tuple(p['Q']) if isinstance(p['Q'], (list, tuple)) else p['Q']
     shift = tuple(p['shift'])
     x, y = _cplx(r, shp), _cplx(r, out)
+    # the argument forms the executor documents: Q float / tuple / other iterable, samples int / iterable, shift float / iterable
+    Qa = list(Q) if (p.get('qform') == 'list' and isinstance(Q, tuple)) else Q
+    sin = shp[0] if (p.get('scalar_samples') and shp[0] == shp[1]) else shp
+    sout = out[0] if (p.get('scalar_samples') and out[0] == out[1]) else out
+    sha = shift[0] if (p.get('scalar_shift') and shift[0] == shift[1]) else shift
     with Spy(ft) as spy:
         if p['op'] == 'dft2':
-            Ax, sg = ft.mdft.dft2(x, Q, out, shift), 1
+            Ax, sg = ft.mdft.dft2(x, Qa, sout, sha), 1
         else:
-            Ax, sg = ft.mdft.idft2(x, Q, out, shift), -1
-    By = ft.mdft.dft2_backprop(y, Q, shp, shift) if sg == 1 else ft.mdft.idft2_backprop(y, Q, shp, shift)
+            Ax, sg = ft.mdft.idft2(x, Qa, sout, sha), -1
+    By, impure = pure2(ft.mdft.dft2_backprop if sg == 1 else ft.mdft.idft2_backprop, y, Qa, sin, sha)
     gap, lhs, rhs = adj_gap(x, y, Ax, By)
     Qy, Qx = Q if isinstance(Q, tuple) else (Q, Q)
-    Eo, Ei = spy.bases(0)
-    line = f'tripbp {out[0]} {shp[0]} {shp[1]} {out[1]} ' + cw(Eo) + ' ' + cw(Ei) + ' ' + cw(y)
+    try:
+        Eo, Ei = spy.bases(0)
+        line = f'tripbp {out[0]} {shp[0]} {shp[1]} {out[1]} ' + cw(Eo) + ' ' + cw(Ei) + ' ' + cw(y)
+    except (KeyError, IndexError):
+        line = None
     fid = f'mdftbp {sg} {shp[0]} {shp[1]} {out[0]} {out[1]} ' + rw([Qy, Qx, shift[0], shift[1]]) + ' ' + cw(y)
-    return Result(gap <= TOL_ADJ and By.shape == shp, f'<y,Ax>={lhs:.12g} <By,x>={rhs:.12g} rel gap {gap:.3e}',
+    return Result(gap <= TOL_ADJ and By.shape == shp and not impure,
+                  f'<y,Ax>={lhs:.12g} <By,x>={rhs:.12g} rel gap {gap:.3e}' + (f'; {impure}' if impure else ''),
                   line, By, shp, 'c', nontrivial=max(shp + out) > 1, extra=[(fid, By, shp, 'c', 'basis-formula model of the backprop')],
-                  tag=f'{"sq" if shp[0] == shp[1] and out[0] == out[1] else "nonsq"}/{"Qax" if isinstance(Q, tuple) and Q[0] != Q[1] else "Q"}/{"shift" if any(shift) else "noshift"}')
+                  tag=f'{"sq" if shp[0] == shp[1] and out[0] == out[1] else "nonsq"}/{"Qax" if isinstance(Q, tuple) and Q[0] != Q[1] else "Q"}/{"shift" if any(shift) else "noshift"}'
+                      f'/{p.get("qform", "tuple")}{"/intsamples" if sin is not shp or sout is not out else ""}{"/scalarshift" if sha is not shift else ""}')
 
 
 def run_fixed(p):
@@ -175,38 +211,48 @@ def run_fixed(p):
     x, y = _cplx(r, shp), _cplx(r, out)
     method = p.get('method', 'mdft')
     ft = _impl()[1]
+    # `samples` may be given as one int for a square array (documented for every routine of this family)
+    ints = bool(p.get('int_samples'))
+    out_a = out[0] if (ints and out[0] == out[1]) else out
+    shp_a = shp[0] if (ints and shp[0] == shp[1]) else shp
+    impure = ''
     with Spy(ft) as spy:
         if p['op'] == 'focus':
             if p.get('via') == 'wavefront':
-                Ax = P.Wavefront(x, wl, idx, 'pupil').focus_fixed_sampling(pd, odx, out, shift, method).data
+                Ax = P.Wavefront(x, wl, idx, 'pupil').focus_fixed_sampling(pd, odx, out_a, shift, method).data
             else:
-                Ax = P.focus_fixed_sampling(x, idx, pd, wl, odx, out, shift, method)
+                Ax = P.focus_fixed_sampling(x, idx, pd, wl, odx, out_a, shift, method)
             sg = 1
         else:
-            Ax = P.unfocus_fixed_sampling(x, idx, pd, wl, odx, out, shift, method)
+            Ax = P.unfocus_fixed_sampling(x, idx, pd, wl, odx, out_a, shift, method)
             sg = -1
     if p['op'] == 'focus':
         if p.get('via') == 'wavefront':
-            By = P.Wavefront(y, wl, odx, 'psf').focus_fixed_sampling_backprop(pd, idx, shp, shift).data
+            wb = P.Wavefront(y, wl, odx, 'psf').focus_fixed_sampling_backprop(pd, idx, shp_a, shift, method='mdft')
+            By = wb.data
+            if wb.dx != idx or wb.space != 'pupil':
+                impure = f'returned Wavefront carries dx={wb.dx}, space={wb.space}; expected the pupil sampling {idx}'
         else:
-            By = P.focus_fixed_sampling_backprop(y, idx, pd, wl, odx, shp, shift)
+            By, impure = pure2(P.focus_fixed_sampling_backprop, y, idx, pd, wl, odx, shp_a, shift)
     else:
-        By = P.unfocus_fixed_sampling_backprop(y, idx, pd, wl, odx, shp, shift)
+        By, impure = pure2(P.unfocus_fixed_sampling_backprop, y, idx, pd, wl, odx, shp_a, shift)
     gap, lhs, rhs = adj_gap(x, y, Ax, By)
     line = None
     if len(spy.calls) == 1:          # matrix-DFT route: the adjoint of the forward's own triple product
         try:
             Eo, Ei = spy.bases(0)
             line = f'tripbp {out[0]} {shp[0]} {shp[1]} {out[1]} ' + cw(Eo) + ' ' + cw(Ei) + ' ' + cw(y)
-        except KeyError:
+        except (KeyError, IndexError):
             line = None
     fid = f'fixedbp {sg} {shp[0]} {shp[1]} {out[0]} {out[1]} ' + rw([idx, pd, wl, odx, shift[0], shift[1]]) + ' ' + cw(y)
     fline = f'fixedfwd {sg} {shp[0]} {shp[1]} {out[0]} {out[1]} ' + rw([idx, pd, wl, odx, shift[0], shift[1]]) + ' ' + cw(x)
-    return Result(gap <= TOL_ADJ and By.shape == shp, f'<y,Ax>={lhs:.12g} <By,x>={rhs:.12g} rel gap {gap:.3e}',
+    return Result(gap <= TOL_ADJ and By.shape == shp and not impure,
+                  f'<y,Ax>={lhs:.12g} <By,x>={rhs:.12g} rel gap {gap:.3e}' + (f'; {impure}' if impure else ''),
                   line, By, shp, 'c', nontrivial=max(shp + out) > 1,
                   extra=[(fline, Ax, out, 'c', 'physical-parameter model of the forward'),
                          (fid, By, shp, 'c', 'physical-parameter model of the backprop')],
-                  tag=f'{p["op"]}/{"sq" if shp[0] == shp[1] else "nonsq"}-{"sq" if out[0] == out[1] else "nonsq"}/{"shift" if any(shift) else "noshift"}/{method}')
+                  tag=f'{p["op"]}/{"sq" if shp[0] == shp[1] else "nonsq"}-{"sq" if out[0] == out[1] else "nonsq"}/{"shift" if any(shift) else "noshift"}/{method}'
+                      f'{"/intsamples" if (shp_a is not shp or out_a is not out) else ""}')
 
 
 def _mask(r, shape, cm):
@@ -216,7 +262,7 @@ def _mask(r, shape, cm):
 
 def _fpm_line(op, spy, ps, ms, mask, y, lyot=None):
     """request for the adjoint of (idft2 . mask . dft2) built from the two matrix DFTs the forward performed"""
-    if len(spy.calls) != 2 or not spy.calls[0][0] or spy.calls[1][0]:
+    if len(spy.calls) != 2 or None in spy.calls or not spy.calls[0][0] or spy.calls[1][0]:
         return None
     try:
         Eo1, Ei1 = spy.bases(0)
@@ -256,6 +302,37 @@ def run_fpm(p):
         extra = f'; Wavefront mask gives the same result: {same}'
         if not same:
             gap = max(gap, 1.0)
+    if p.get('return_more'):
+        # the three arrays of return_more=True: gradient at the pupil, gradient arriving at the mask plane (adjoint of the
+        # return leg alone), and that gradient after the conjugate mask
+        problems = []
+        try:
+            if p.get('via') == 'wavefront':
+                mk_ = P.Wavefront(m, wl, fdx, 'psf') if p.get('wfmask') else m
+                tri = P.Wavefront(y, wl, dx).to_fpm_and_back_backprop(efl, mk_, None if p.get('wfmask') else fdx,
+                                                                        method=method, shift=shift, return_more=True)
+                for nm, w_, want_dx, want_space in (('Eabar', tri[0], dx, 'pupil'), ('Ebbar', tri[1], fdx, 'psf'), ('intermediate', tri[2], fdx, 'psf')):
+                    if w_.dx != want_dx or w_.space != want_space:
+                        problems.append(f'{nm} is labelled dx={w_.dx} space={w_.space}, expected dx={want_dx} space={want_space}')
+                Ea, Eb, Ei_ = (w_.data for w_ in tri)
+            else:
+                Ea, Eb, Ei_ = P.to_fpm_and_back_backprop(y, dx, wl, efl, m, fdx, method=method, shift=shift, return_more=True)
+            if np.shape(Ea) != ps or not np.array_equal(Ea, By):
+                problems.append('first array differs from the return_more=False result')
+            z = _cplx(r, ms)
+            back_shift = (shift[0] * dx / fdx, shift[1] * dx / fdx)
+            Uz = P.unfocus_fixed_sampling(z, fdx, efl, wl, dx, ps, shift=back_shift, method=method)
+            g2, l2, r2 = adj_gap(z, y, Uz, Eb)
+            if np.shape(Eb) != ms or g2 > TOL_ADJ:
+                problems.append(f'second array is not the adjoint of the return leg: <y,U z>={l2:.10g} <Ebbar,z>={r2:.10g}')
+            okc, det = close(Ei_, np.asarray(Eb) * np.conj(m), 1e-12) if np.shape(Eb) == ms else (False, 'shape')
+            if not okc:
+                problems.append(f'third array is not second * conj(mask): {det}')
+        except Exception as ex:
+            problems.append(f'return_more=True raised {type(ex).__name__}: {ex}')
+        if problems:
+            gap = max(gap, 1.0)
+            extra += '; return_more: ' + ' | '.join(problems)
     line = _fpm_line('fpmbpm', spy, ps, ms, m, y)
     fid = f'fpmbp {ps[0]} {ps[1]} {ms[0]} {ms[1]} ' + rw([dx, efl, wl, fdx, shift[0], shift[1]]) + ' ' + cw(m) + ' ' + cw(y)
     fline = f'fpmfwd {ps[0]} {ps[1]} {ms[0]} {ms[1]} ' + rw([dx, efl, wl, fdx, shift[0], shift[1]]) + ' ' + cw(m) + ' ' + cw(x)
@@ -263,7 +340,8 @@ def run_fpm(p):
                   line, By, ps, 'c', nontrivial=max(ps + ms) > 1,
                   extra=[(fline, Ax, ps, 'c', 'physical-parameter model of the forward'),
                          (fid, By, ps, 'c', 'physical-parameter model of the backprop')],
-                  tag=f'{"cmask" if p["cmask"] else "rmask"}/{"same" if ps == ms else "othershape"}/{"shift" if any(shift) else "noshift"}')
+                  tag=f'{"cmask" if p["cmask"] else "rmask"}/{"same" if ps == ms else "othershape"}/{"shift" if any(shift) else "noshift"}'
+                      f'{"/return_more" if p.get("return_more") else ""}')
 
 
 def run_babinet(p):
@@ -276,14 +354,26 @@ def run_babinet(p):
     lyot = None if p['lyot'] == 'none' else _mask(r, ps, p['lyot'] == 'complex')
     ft = _impl()[1]
     with Spy(ft) as spy:
-        Ax = P.Wavefront(x, wl, dx).babinet(efl, lyot, m, fdx).data
-    By = P.Wavefront(y, wl, dx).babinet_backprop(efl, lyot, m, fdx).data
+        Ax = P.Wavefront(x, wl, dx).babinet(efl, lyot, m, fdx, method=p.get('method', 'mdft')).data
+    By = P.Wavefront(y, wl, dx).babinet_backprop(efl, lyot, m, fdx, method=p.get('method', 'mdft')).data
     gap, lhs, rhs = adj_gap(x, y, Ax, By)
     extra = ''
     if p.get('wfmask'):
         By2 = P.Wavefront(y, wl, dx).babinet_backprop(efl, lyot, P.Wavefront(m, wl, fdx, 'psf')).data
         same = np.shape(By2) == np.shape(By) and np.array_equal(By2, By)
         extra = f'; Wavefront mask gives the same result: {same}'
+        if not same:
+            gap = max(gap, 1.0)
+    if p.get('wflyot') and lyot is not None:       # documented alternative: the Lyot stop as a Wavefront
+        try:
+            By3 = P.Wavefront(y, wl, dx).babinet_backprop(efl, P.Wavefront(lyot, wl, dx), m, fdx, method=p.get('method', 'mdft')).data
+            same = np.shape(By3) == np.shape(By) and close(By3, By, 1e-12)[0]
+            Ax3 = P.Wavefront(x, wl, dx).babinet(efl, P.Wavefront(lyot, wl, dx), m, fdx, method=p.get('method', 'mdft')).data
+            same = same and isinstance(Ax3, np.ndarray) and close(Ax3, Ax, 1e-12)[0]
+            extra += f'; Wavefront Lyot stop gives the same result: {same}'
+        except Exception as ex:
+            same = False
+            extra += f'; Wavefront Lyot stop raised {type(ex).__name__}: {ex}'
         if not same:
             gap = max(gap, 1.0)
     L = np.ones(ps) if lyot is None else lyot
@@ -303,14 +393,26 @@ def run_intensity(p):
     Ibar = r.normal(size=shp)
     wf = P.Wavefront(E, 0.5, 1.0)
     G = wf.intensity_backprop(Ibar).data
+    cont = p.get('container')
+    cont_msg = ''
+    if cont:        # the upstream gradient in the container the docstring names (Wavefront) or the one intensity returns (RichData)
+        from prysm._richdata import RichData
+        box = P.Wavefront(Ibar, 0.5, 1.0) if cont == 'wavefront' else RichData(Ibar, 1.0, 0.5)
+        try:
+            G2 = wf.intensity_backprop(box).data
+            if not (isinstance(G2, np.ndarray) and np.array_equal(G2, G)):
+                cont_msg = f'; upstream gradient as a {cont} gives a different result'
+        except Exception as ex:
+            cont_msg = f'; upstream gradient as a {cont} raised {type(ex).__name__}: {ex}'
     f = lambda t: float(np.sum(Ibar * P.Wavefront(E + t * d, 0.5, 1.0).intensity.data))
     fd = richardson(f, 1e-3)
     an = float(np.real(np.vdot(G, d)))
     scale = max(np.linalg.norm(G) * np.linalg.norm(d), 1e-300)
     n = E.size
     line = f'intbp {n} ' + rw(Ibar) + ' ' + cw(E)
-    return Result(fd_ok(fd, an, scale, abs(f(0.0)) + 1e-300, 1e-3), f'finite difference {fd:.10g}, Re<Gbar,delta> {an:.10g}', line, G, shp, 'c',
-                  tag=f'n{min(n, 9)}')
+    return Result(fd_ok(fd, an, scale, abs(f(0.0)) + 1e-300, 1e-3) and not cont_msg,
+                  f'finite difference {fd:.10g}, Re<Gbar,delta> {an:.10g}' + cont_msg, line, G, shp, 'c',
+                  tag=f'n{min(n, 9)}/{cont or "ndarray"}')
 
 
 def run_phase(p):
@@ -339,21 +441,25 @@ def run_modes(p):
     r = _rng(p['seed'])
     k, m, n = p['k'], p['shape'][0], p['shape'][1]
     modes = r.normal(size=(k, m, n))
-    w, d = r.normal(size=k), r.normal(size=(m, n))
+    w = r.normal(size=k)
+    d = _cplx(r, (m, n)) if p.get('cbar') else r.normal(size=(m, n))      # upstream gradients may be complex
     mm = list(modes) if p.get('aslist') else modes
     Ax = po.sum_of_2d_modes(mm, w)
-    By = po.sum_of_2d_modes_backprop(mm, d)
+    By, impure = pure2(po.sum_of_2d_modes_backprop, mm, d)
     gap, lhs, rhs = adj_gap(w, d, Ax, By)
-    line = f'modesbp {k} {m} {n} ' + rw(modes) + ' ' + rw(d)
-    return Result(gap <= TOL_ADJ and np.shape(By) == (k,), f'<d,Aw>={lhs:.12g} <Bd,w>={rhs:.12g} rel gap {gap:.3e}', line, By, (k,), 'r',
-                  nontrivial=k * m * n > 1, tag=f'k{k}')
+    line = None if p.get('cbar') else f'modesbp {k} {m} {n} ' + rw(modes) + ' ' + rw(d)
+    return Result(gap <= TOL_ADJ and np.shape(By) == (k,) and not impure,
+                  f'<d,Aw>={lhs:.12g} <Bd,w>={rhs:.12g} rel gap {gap:.3e}' + (f'; {impure}' if impure else ''), line,
+                  By if line else None, (k,) if line else None, 'r',
+                  nontrivial=k * m * n > 1, tag=f'k{k}/{"cbar" if p.get("cbar") else "rbar"}')
 
 
 def _estimator(ac, kind, tau, seed):
     if kind == 'softmax':
         return ac.Softmax()
     g = ac.GumbelSoftmax(tau=tau)
-    g.rng = np.random.default_rng(seed)
+    g.rng = np.random.default_rng(seed)      # the node's own generator ...
+    np.random.seed(seed % (2 ** 32))         # ... and the legacy global one, whichever the node draws from
     return g
 
 
@@ -370,7 +476,7 @@ def run_softmax(p):
 
     def fwd(z):
         est = _estimator(ac, kind, tau, nseed)
-        node = ac.DiscreteEncoder(est, np.array(enc, dtype=float)) if enc is not None else est
+        node = ac.DiscreteEncoder(est, K if enc == 'int' else np.array(enc, dtype=float)) if enc is not None else est
         return node, node.forward(z)
     node, out = fwd(x)
     g = r.normal(size=out.shape)
@@ -385,7 +491,8 @@ def run_softmax(p):
     est = node.est if enc is not None else node
     s = (est.smax.out if kind == 'gumbel' else est.out).reshape(-1, K)[0]
     if enc is not None:
-        line = f'encbp {K} ' + rw([tau if kind == 'gumbel' else 0.0, g.reshape(-1)[0]]) + ' ' + rw(enc) + ' ' + rw(s)
+        lv = np.arange(K) if enc == 'int' else enc
+        line = f'encbp {K} ' + rw([tau if kind == 'gumbel' else 0.0, g.reshape(-1)[0]]) + ' ' + rw(lv) + ' ' + rw(s)
     elif kind == 'gumbel':
         line = f'gumbelbp {K} ' + rw([tau]) + ' ' + rw(s) + ' ' + rw(g.reshape(-1, K)[0])
     else:
@@ -413,8 +520,9 @@ def run_activation(p):
     x = x.astype(float)
     line = f'act {p["kind"]} ' + rw([p['a'], p['x0'], p['y0'], x.reshape(-1)[0]])
     impl = np.array([node.forward(x).reshape(-1)[0], np.asarray(b).reshape(-1)[0]])
+    # the closed forms of the model are a fidelity note: what is judged is backprop = derivative of the node's own forward
     return Result(okc and unchanged, f'backprop vs central difference of forward: {det}; input left unchanged: {unchanged}',
-                  line, impl, (2,), 'r', tag=p['kind'])
+                  extra=[(line, impl, (2,), 'r', 'closed-form model of forward value and derivative')], tag=p['kind'])
 
 
 def run_sg(p):
@@ -439,8 +547,13 @@ def run_sg(p):
     vec = np.moveaxis(np.real(y), ax, 0).reshape(n, -1)[:, 0]
     got = np.moveaxis(np.real(By), ax, 0).reshape(n, -1)[:, 0] if By.shape == shp else np.real(By)
     line = f'sgbp {n} ' + rw(vec)
-    return Result(gap <= TOL_ADJ and fwd_ok, f'<y,Ax>={lhs:.12g} <By,x>={rhs:.12g} rel gap {gap:.3e}; forward is the interior difference: {det}',
-                  line, got, (n,), 'r', nontrivial=n >= 3, tag=f'{p["axis"]}/{"sq" if shp[0] == shp[1] else "nonsq"}')
+    res = Result(gap <= TOL_ADJ and np.shape(Ax) == shp and np.shape(By) == shp,
+                 f'<y,Ax>={lhs:.12g} <By,x>={rhs:.12g} rel gap {gap:.3e}; forward is the interior difference: {det}',
+                 extra=[(line, got, (n,), 'r', 'adjoint of the one-sided interior difference')], nontrivial=n >= 3,
+                 tag=f'{p["axis"]}/{"sq" if shp[0] == shp[1] else "nonsq"}')
+    if not fwd_ok:
+        res.fidelity.append('forward is not the one-sided interior difference out[i] = x[i+1] - x[i], 1 <= i <= n-2')
+    return res
 
 
 def run_cost(p):
@@ -472,8 +585,9 @@ def run_cost(p):
     bv = np.full(av.shape, b) if np.isscalar(b) else sel(b)
     line = f'{kind} {av.size} ' + rw(av) + ' ' + rw(bv)
     impl = np.concatenate([[c0], sel(g) if np.shape(g) == shp else np.ravel(g)])
-    return Result(ok, f'finite difference {fd:.10g}, <grad,delta> {an:.10g}', line, impl, (av.size + 1,), 'r',
-                  tag=f'{kind}/{"masked" if p["masked"] else "unmasked"}')
+    return Result(ok, f'finite difference {fd:.10g}, <grad,delta> {an:.10g}',
+                  extra=[(line, impl, (av.size + 1,), 'r', 'closed-form model of cost and gradient')],
+                  tag=f'{kind}/{"masked" if p["masked"] else "unmasked"}{"/scalar-yhat" if p.get("scalar_yhat") else ""}')
 
 
 def _ifn(shape, width=1.7):
@@ -487,18 +601,35 @@ def run_dm(p):
     ifn = _ifn(tuple(p['ifn_shape']))
     up = p['upsample']
     up = tuple(up) if isinstance(up, list) else up
-    dm = dmm.DM(ifn, Nout=tuple(p['Nout']), Nact=p['Nact'], sep=tuple(p['sep']), shift=tuple(p['shift']), upsample=up)
-    a = r.normal(size=dm.actuators.shape)
-    dm.update(a)
-    s = dm.render(wfe=p['wfe']).copy()
-    y = r.normal(size=s.shape)
+    rot = tuple(p.get('rot', (0, 0, 0)))
+    nact = tuple(p['Nact']) if isinstance(p['Nact'], list) else p['Nact']
+    # forward first: geometries on which DM.__init__ / DM.render themselves fail (non-square Nact, pad one axis and crop the
+    # other) give no forward map to differentiate -- recorded, not a statement about gradients
+    try:
+        dm = dmm.DM(ifn, Nout=tuple(p['Nout']), Nact=nact, sep=tuple(p['sep']), shift=tuple(p['shift']), upsample=up, rot=rot)
+        a = r.normal(size=dm.actuators.shape)
+        dm.update(a)
+        s = dm.render(wfe=p['wfe']).copy()
+        if s.ndim != 2 or 0 in s.shape:
+            raise ValueError(f'render returned an array of shape {s.shape}')
+    except Exception as ex:
+        return Result(True, f'forward not defined for this geometry ({type(ex).__name__}: {ex})', nontrivial=False, tag='forward-raises')
+    if any(rot):
+        # rotation: the companion applies the inverse warp (spline interpolation), which is NOT the exact adjoint of the warp
+        # (interpolation error and the Jacobian of a tilt, a few per cent).  Tested on smooth upstream gradients at TOL_ROT.
+        from scipy.ndimage import gaussian_filter
+        n_ = gaussian_filter(r.normal(size=s.shape), 2.5)
+        y = n_ + s * (np.linalg.norm(n_) / max(np.linalg.norm(s), 1e-300))     # correlated with render(a): <y, render(a)> is not small
+    else:
+        y = r.normal(size=s.shape)
     y_in = y.copy()
     gb = dm.render_backprop(y_in, wfe=p['wfe'])
     unchanged = np.array_equal(y_in, y)
     gap, lhs, rhs = adj_gap(a, y, s, gb)
-    ok = gap <= TOL_ADJ and np.shape(gb) == a.shape and unchanged
+    ok = gap <= (TOL_ROT if any(rot) else TOL_ADJ) and np.shape(gb) == a.shape and unchanged
     line, fid = None, []
-    if up == 1 and isinstance(p['Nact'], int):
+    geom_ok = (s.shape[0] - dm.Nintermediate[0]) * (s.shape[1] - dm.Nintermediate[1]) >= 0
+    if up == 1 and isinstance(p['Nact'], int) and not any(rot) and geom_ok:
         m_, n_ = ifn.shape
         scale = 2 * dm.obliquity if p['wfe'] else 1.0
         fid = [(f'dmbp {m_} {n_} {p["Nact"]} {p["sep"][0]} {p["sep"][1]} {s.shape[0]} {s.shape[1]} '
@@ -529,7 +660,8 @@ def run_dm(p):
                   line, gb if line else None, a.shape if line else None, 'r', extra=fid,
                   tag=f'{"odd" if ifn.shape[0] % 2 else "even"}{"odd" if ifn.shape[1] % 2 else "even"}/'
                       f'{"pad" if s.shape[0] > dm.Nintermediate[0] else "crop" if s.shape[0] < dm.Nintermediate[0] else "same"}/'
-                      f'{"up" if up != 1 else "noup"}/{"shift" if any(p["shift"]) else "noshift"}/{"wfe" if p["wfe"] else "sfe"}')
+                      f'{"up" if up != 1 else "noup"}/{"shift" if any(p["shift"]) else "noshift"}/{"wfe" if p["wfe"] else "sfe"}'
+                      f'{"/rot" if any(rot) else ""}{"/shape-not-Nout" if tuple(s.shape) != tuple(dm.Nout) else ""}')
 
 
 def _fd_vjp(fwd, x, d, g, h):
@@ -560,7 +692,8 @@ def run_history(p):
         def live_forward(z):
             e = top.est if levels is not None else top
             if isinstance(e, ac.GumbelSoftmax):
-                e.rng = np.random.default_rng(nseed)          # freeze the noise
+                e.rng = np.random.default_rng(nseed)          # freeze the noise (node generator and legacy global one)
+                np.random.seed(nseed % (2 ** 32))
             return top.forward(z)
         last = None
         for k in range(steps + 1):
@@ -633,7 +766,8 @@ def run_history(p):
             if not okc:
                 return fail(f'step {k}: backprop vs derivative of the live forward: {det}')
         line = f'act {node} ' + rw([nd.a, nd.x0, nd.y0, x.reshape(-1)[0]])
-        return Result(True, '; '.join(log), line, np.array([nd.forward(x).reshape(-1)[0], np.asarray(b).reshape(-1)[0]]), (2,), 'r', tag=node)
+        return Result(True, '; '.join(log), extra=[(line, np.array([nd.forward(x).reshape(-1)[0], np.asarray(b).reshape(-1)[0]]), (2,), 'r',
+                                                     'closed-form model of forward value and derivative')], tag=node)
 
     if node == 'wavefront':
         wf = P.Wavefront(_cplx(r, (3, 4)), 0.5, 1.0)
@@ -751,7 +885,13 @@ def gen_cases(r, item, k):
         if item == 'mdft':
             Qk = int(r.integers(0, 4))
             Q = [1, 2, float(r.uniform(1, 3)), [float(r.uniform(1, 3)), float(r.uniform(1, 3))]][Qk]
-            out.append({'op': ['dft2', 'idft2'][i % 2], 'shp': _shape(r), 'out': _shape(r), 'Q': Q, 'shift': _pick_shift(r), 'seed': seed})
+            d = {'op': ['dft2', 'idft2'][i % 2], 'shp': _shape(r), 'out': _shape(r), 'Q': Q, 'shift': _pick_shift(r), 'seed': seed,
+                 'qform': ['tuple', 'list'][(i // 2) % 2]}
+            if i % 6 == 4:                       # the scalar spellings: int samples on both sides, one shift for both axes
+                n_, N_ = int(r.integers(1, 8)), int(r.integers(1, 8))
+                sv = float(r.choice([0.0, 1.0, -1.5]))
+                d.update({'shp': [n_, n_], 'out': [N_, N_], 'scalar_samples': True, 'scalar_shift': True, 'shift': [sv, sv]})
+            out.append(d)
         elif item == 'fixed':
             dx, efl, wl = _phys(r)
             shp = _shape(r, 2, 9)
@@ -761,6 +901,14 @@ def gen_cases(r, item, k):
             out.append({'op': op, 'shp': shp, 'out': _shape(r, 1, 9), 'input_dx': dx, 'prop_dist': efl, 'wavelength': wl,
                         'output_dx': odx, 'shift': [sh[0] * odx, sh[1] * odx], 'seed': seed,
                         'via': 'wavefront' if (op == 'focus' and i % 4 == 0) else 'func', 'method': 'czt' if i % 5 == 4 else 'mdft'})
+            if i % 6 in (2, 3):                  # square arrays given by one int (both sides, or the backprop's side only)
+                n_ = int(r.integers(2, 9))
+                out[-1]['shp'] = [n_, n_]
+                out[-1]['output_dx'] = _fdx(r, n_, dx, efl, wl)
+                if i % 12 in (2, 3):
+                    N_ = int(r.integers(1, 9))
+                    out[-1]['out'] = [N_, N_]
+                out[-1]['int_samples'] = True
         elif item in ('fpm', 'babinet'):
             dx, efl, wl = _phys(r)
             ps = _shape(r, 2, 8)
@@ -771,16 +919,20 @@ def gen_cases(r, item, k):
             if item == 'fpm':
                 sh = _pick_shift(r)
                 d.update({'shift': [sh[0] * fdx, sh[1] * fdx], 'via': 'wavefront' if i % 4 == 1 else 'func',
-                          'method': 'czt' if i % 7 == 6 else 'mdft'})
+                          'method': 'czt' if i % 7 == 6 else 'mdft', 'return_more': i % 3 == 1})
+                if i % 8 == 5:
+                    d.update({'via': 'wavefront', 'wfmask': True, 'return_more': True})
             else:
                 d['lyot'] = ['none', 'real', 'complex'][i % 3]
+                d['wflyot'] = i % 4 in (1, 2)
+                d['method'] = 'czt' if i % 11 == 10 else 'mdft'
             out.append(d)
         elif item == 'intensity':
-            out.append({'shape': _shape(r, 1, 6), 'seed': seed})
+            out.append({'shape': _shape(r, 1, 6), 'seed': seed, 'container': [None, 'wavefront', 'richdata'][i % 3]})
         elif item == 'phase':
             out.append({'shape': _shape(r, 1, 6), 'wavelength': float(r.choice([0.5, 0.6328, 1.55])), 'seed': seed})
         elif item == 'modes':
-            out.append({'k': int(r.integers(1, 7)), 'shape': _shape(r, 1, 6), 'aslist': bool(i % 2), 'seed': seed})
+            out.append({'k': int(r.integers(1, 7)), 'shape': _shape(r, 1, 6), 'aslist': bool(i % 2), 'seed': seed, 'cbar': i % 3 == 2})
         elif item == 'softmax':
             K = int(r.integers(2, 6))
             rank = [2, 3, 3, 4][i % 4]
@@ -791,6 +943,8 @@ def gen_cases(r, item, k):
             d = {'kind': kind, 'shape': lead + [K], 'tau': float(r.uniform(0.3, 2.0)), 'seed': seed}
             if i % 3 != 0:
                 d['levels'] = sorted(float(v) for v in r.choice(np.arange(0, 12), size=K, replace=False))
+            if i % 9 == 4:
+                d['levels'] = 'int'           # DiscreteEncoder(levels=K) generates arange(K) itself
             out.append(d)
         elif item == 'activation':
             out.append({'kind': ['tanh', 'arctan', 'softplus', 'sigmoid'][i % 4], 'a': float(r.choice([1.0, 0.5, 2.5, -1.3])),
@@ -800,7 +954,7 @@ def gen_cases(r, item, k):
             out.append({'axis': 'xy'[i % 2], 'shape': _shape(r, 1, 9), 'complex': i % 5 == 0, 'seed': seed})
         elif item == 'cost':
             out.append({'kind': ['mse', 'bgie', 'nll'][i % 3], 'shape': _shape(r, 2, 6), 'masked': bool((i // 3) % 2),
-                        'scalar_yhat': (i % 3 == 2 and i % 4 == 0), 'seed': seed})
+                        'scalar_yhat': (i % 3 == 2 and (i // 6) % 2 == 1), 'seed': seed})
         elif item == 'dm':
             n0 = int(r.integers(14, 25))
             n1 = n0 if i % 3 == 0 else int(r.integers(14, 25))
@@ -809,17 +963,24 @@ def gen_cases(r, item, k):
             up = [1, 1, 2, 0.5, 1.5, [1.5, 2.0], 0.75][i % 7]
             upy, upx = (up if isinstance(up, list) else (up, up))
             inter = (int(n0 * upy), int(n1 * upx)) if up != 1 else (n0, n1)
-            mode = i % 3          # same / pad / crop on both axes (render's mixed geometry is out of scope, see report)
+            mode = i % 3          # same / pad / crop on both axes
             if mode == 0:
                 Nout = list(inter)
             elif mode == 1:
                 Nout = [inter[0] + int(r.integers(1, 7)), inter[1] + int(r.integers(1, 7))]
-                Nout[1] = max(Nout[1], 1)
             else:
-                Nout = [max(3, inter[0] - int(r.integers(1, 6))), max(3, inter[1] - int(r.integers(1, 6)))]
+                # render crops only when shape[0] > Nout[1] (sic): keep both targets below inter[0] so that the crop happens
+                c0 = max(3, min(inter) - int(r.integers(1, 6)))
+                Nout = [c0, max(3, min(c0 + 1, min(inter) - 1) - int(r.integers(0, 3)))]
             out.append({'ifn_shape': [n0, n1], 'Nout': Nout, 'Nact': nact, 'sep': sep,
                         'shift': [[0, 0], [1.5, -2.25], [0.5, 0]][i % 3] if i % 2 else [0, 0], 'upsample': up,
                         'wfe': bool(i % 2), 'seed': seed})
+            if i % 7 == 3:       # rotation (approximate adjoint): in-plane angles large enough to tell proj from invproj, and tilts
+                big = [n0 + 8, n1 + 8]
+                out[-1].update({'rot': [[20, 0, 0], [-30, 0, 0], [15, 6, 0], [25, 0, 5]][(i // 7) % 4], 'upsample': 1,
+                                'ifn_shape': big, 'Nout': big, 'shift': [0, 0]})
+            if i % 14 == 5:      # geometries on which the forward itself is not defined (recorded only)
+                out[-1].update({'Nout': [inter[0] + 3, max(3, inter[1] - 3)]} if i % 28 == 5 else {'Nact': [3, 4]})
         elif item == 'history':
             kinds = ['gumbel', 'encoder-gumbel', 'encoder-softmax', 'softmax', 'tanh', 'arctan', 'softplus', 'sigmoid',
                      'wavefront', 'cost', 'dm']
@@ -842,12 +1003,6 @@ def gen_cases(r, item, k):
     return out
 
 
-def _dm_forward_defined(p):
-    """DM.render decides pad-vs-crop from axis 0 only; geometries that would pad one axis and crop the other make render
-    itself raise / return a wrong shape (a forward defect outside C06's backprop scope): not generated"""
-    return True
-
-
 def small_cases(item):
     """systematic small-scope inputs, smallest first"""
     if item == 'mdft':
@@ -863,8 +1018,10 @@ def small_cases(item):
                 if m + n + M + N == tot:
                     for op in ('focus', 'unfocus'):
                         for sh in ([0, 0], [0.4, -0.7]):
-                            yield {'op': op, 'shp': [m, n], 'out': [M, N], 'input_dx': 1.0, 'prop_dist': 100.0, 'wavelength': 0.5,
-                                   'output_dx': 50.0 / (2.3 * m), 'shift': [sh[0] * 9, sh[1] * 9], 'seed': 7, 'via': 'func'}
+                            for ints in ((False, True) if m == n else (False,)):
+                                yield {'op': op, 'shp': [m, n], 'out': [M, N], 'input_dx': 1.0, 'prop_dist': 100.0, 'wavelength': 0.5,
+                                       'output_dx': 50.0 / (2.3 * m), 'shift': [sh[0] * 9, sh[1] * 9], 'seed': 7, 'via': 'func',
+                                       'int_samples': ints}
     elif item in ('fpm', 'babinet'):
         for tot in range(8, 20):
             for (a, b, c, d) in itertools.product(range(2, 6), repeat=4):
@@ -874,13 +1031,15 @@ def small_cases(item):
                                 'fpm_dx': 50.0 / (2.0 * a), 'seed': 7}
                         if item == 'fpm':
                             for sh in ([0, 0], [7.0, -3.0]):
-                                yield {**base, 'shift': sh, 'via': 'func'}
+                                yield {**base, 'shift': sh, 'via': 'func', 'return_more': True}
+                                yield {**base, 'shift': sh, 'via': 'wavefront', 'wfmask': True, 'return_more': True}
                         else:
                             for ly in ('none', 'real', 'complex'):
-                                yield {**base, 'lyot': ly}
+                                yield {**base, 'lyot': ly, 'wflyot': True, 'wfmask': True}
     elif item == 'intensity':
         for s in ([1, 1], [1, 2], [2, 3]):
-            yield {'shape': s, 'seed': 7}
+            for c in (None, 'wavefront', 'richdata'):
+                yield {'shape': s, 'seed': 7, 'container': c}
     elif item == 'phase':
         for s in ([1, 1], [1, 2], [2, 3]):
             for wl in (0.5, 1.55):
@@ -925,6 +1084,8 @@ def small_cases(item):
                 yield {'node': 'dm', 'steps': steps, 'seed': 7, 'ifn_shape': [12, 13], 'shift': [0.5, 0], 'changes': ch}
     elif item == 'dm':
         for n in (12, 13):
+            yield {'ifn_shape': [n + 12, n + 12], 'Nout': [n + 12, n + 12], 'Nact': 3, 'sep': [3, 3], 'shift': [0, 0], 'upsample': 1,
+                   'wfe': False, 'seed': 7, 'rot': [25, 0, 0]}
             for (n1, Nout, up, sh, wfe) in ((n, [n, n], 1, [0, 0], False), (n + 1, [n + 4, n + 6], 1, [0, 0], True),
                                             (n, [n - 3, n - 3], 1, [1.5, -0.5], False), (n, [2 * n, 2 * n], 2, [0, 0], False),
                                             (n + 1, [n // 2, (n + 1) // 2], 0.5, [0, 0], True), (n, [n + n // 2, n + n // 2], 1.5, [0.5, 0], False)):
@@ -948,6 +1109,7 @@ def correspondence(ctx):
     if ctx.widen:
         mult *= 2
     pending = []
+    fmsgs = {}
     for item in ITEMS:
         cases = list(gen_cases(ctx.rng, item, QUICK[item] * mult))
         if ctx.thorough or ctx.widen:     # plus the whole small-scope enumeration
@@ -957,6 +1119,8 @@ def correspondence(ctx):
             ctx.case(item, p, nontrivial=res.nontrivial, tag=res.tag)
             if not res.ok:
                 ctx.pred_fail(item, p, res.detail)
+            for msg in res.fidelity:
+                fmsgs[(item, msg)] = fmsgs.get((item, msg), 0) + 1
             if res.model_line is not None:
                 pending.append((item, p, res.model_line, res.impl, res.shape, res.kind, 'backprop', True))
             for (ln, impl, shape, kind, label) in res.extra:
@@ -980,6 +1144,8 @@ def correspondence(ctx):
             # the stand-alone model of the forward's semantics (Q formula, basis formula, DM lattice ...) no longer
             # describes the code.  That is not a statement about gradients: recorded, not an alarm.
             drift[(item, label)] = drift.get((item, label), 0) + 1
+    for (item, msg), k in sorted(fmsgs.items()):
+        ctx.notes.append(f'model fidelity: {item}: {msg} ({k} cases)')
     for (item, label), k in sorted(drift.items()):
         ctx.notes.append(f'model fidelity: {item}: {label} differs from the implementation in {k} cases '
                          f'(forward semantics changed? adjointness is decided by the dot-product tests and the relative model)')
@@ -989,7 +1155,7 @@ def correspondence(ctx):
 _HINT = {'ffs': 'fixed', 'ufs': 'fixed', 'fpm': 'fpm', 'babinet': 'babinet', 'sg': 'sg', 'shifted': 'sg', 'spatial': 'sg',
          'mse': 'cost', 'bgie': 'cost', 'nll': 'cost', 'tanh': 'activation', 'arctan': 'activation', 'softplus': 'activation',
          'sigmoid': 'activation', 'softmax': 'softmax', 'gumbel': 'softmax', 'encoder': 'softmax', 'intensity': 'intensity',
-         'phase': 'phase', 'wavefront': 'intensity', 'modal': 'modes', 'structure': 'dm', 'triple': 'mdft', 'circ': 'dm',
+         'phase': 'phase', 'wavefront': 'intensity', 'modal': 'modes', 'dm_steps': 'dm', 'mdft_terms': 'mdft', 'triple': 'mdft', 'circ': 'dm',
          'pad_crop': 'dm', 'qForSampling': 'fixed', 'live': 'history', 'attribute': 'history'}
 
 
@@ -1002,7 +1168,7 @@ def search(ctx, hints):
         for key, item in _HINT.items():
             if key.lower() in t.lower() and item not in order:
                 order.append(item)
-    if 'gen_structure' in ' '.join(hints.get('failed_theorems', [])):
+    if any(k in ' '.join(hints.get('failed_theorems', [])) for k in ('gen_mdft_terms', 'gen_modal_axes', 'gen_dm_steps')):
         for it in ('dm', 'modes', 'mdft'):
             if it not in order:
                 order.append(it)
@@ -1041,38 +1207,39 @@ def replay(inp):
 
 MANIFEST_ENTRY = {
     'technique': 'Lean 4 proofs (adjoint algebra over any field with conjugation; Mathlib HasDerivAt for softmax / activations / '
-                 'cost functions) over translator-generated glue + dot-product and finite-difference correspondence on the real code',
-    'text': ('PROVED for all inputs (no sorry, standard axioms): (1) linear nodes, over every field with an involutive conjugation '
-             '(C with complex conjugation, R with the identity) and for ALL sizes, matrices and data: <y, Eo f Ei> = <Eo^H y Ei^H, f> in both '
-             'associations (dft2_backprop / idft2_backprop for every Q, shape, shift), mask multiplication, the composed mask-and-back '
-             'operator idft.mask.dft and its backprop with the sign / conjugation flags read off the source, Babinet '
-             'L*(x - T x) with the combination coefficient read off the source, pad/crop with the offsets translated from pad2d / '
-             'crop_center, strided scatter/gather (actuator lattice), Fourier filtering ifft2(fft2(x) H) against filtering with conj(H) '
-             '(only contract used: ifft = c fft^H, c real), the whole DM.render chain (scatter, filter, real scale, pad or crop) against '
-             'render_backprop, the modal sum with real modes, the SpatialGradient2D forward/backprop statements as translated '
-             '(NumPy slice-assignment interpreter, every axis length including 0,1,2) and their row/column liftings; the same identities '
-             'for the executable model itself (complex numbers as pairs of reals, concrete matrix-DFT bases, per-axis Q, both shifts) by '
-             'transport to Mathlib C, and agreement of the tabulated pipelines the driver runs with the pure definitions. (2) non-linear '
-             'nodes: exact polynomial expansions for the intensity node and the mean-square error; the phase node under the derivation '
-             'law u\' = i k u (instantiated with Complex.exp); HasDerivAt theorems for softmax (VJP = s*(g - <g,s>)), shift invariance, '
-             'Gumbel-softmax (1/tau), the discrete encoder, tanh / arctan / softplus / sigmoid (all a, x0, y0), the negative '
-             'log-likelihood, and the bias-and-gain-invariant error in full (normal equations, stationarity of gain and bias, envelope '
-             'argument made rigorous). TRANSLATED from the current source on every run (the theorems are re-checked against it): '
-             'the Q / shift / shape wiring of focus/unfocus_fixed_sampling(_backprop) and of to_fpm_and_back(_backprop) by symbolic '
-             'execution with callee inlining (backprop legs must equal the forward legs for all arguments), sign and mask conjugation '
-             'of the mask-and-back adjoint, Babinet combination, SpatialGradient2D slice statements and axes, the closed forms of '
-             'mean_square_error / bias_and_gain_invariant_error / negative_loglikelihood, of the four activations, of the softmax / '
-             'Gumbel / encoder backprops, of intensity_backprop and from_amp_and_phase_backprop_phase, pad/crop offsets, and structural '
-             'facts (dft2/idft2_backprop use the conjugate transposes of the forward\'s cached bases; sum_of_2d_modes_backprop contracts '
-             'both image axes; DM.render_backprop reverses render\'s steps with conj(tf) and the adjoint resampler). '
-             'MODELLED-AND-COMPARED: every case runs the property\'s own predicate on the real code (dot-product test at 1e-10, '
-             'Richardson central differences at 1e-6) and compares the real backprop with the Lean model in Float at 1e-9, the model being '
-             'given the forward\'s own ingredients (its cached basis matrices, the DM transfer function / lattice / resize offsets) so '
-             'that only adjointness is judged. PARTIAL / NOT COVERED: DM rotation (spline warp is not an exact adjoint by construction), '
-             'the adjoint of fourier_resample (upsample != 1) is checked numerically only, CZT backprops do not exist in prysm, '
-             'complex modes in sum_of_2d_modes_backprop, floating-point error, scipy.fft internals.'),
-    'note': ('Trusted: Lean kernel + propext/Classical.choice/Quot.sound; tools/gen_c06.py (symbolic executor and expression translators; '
-             'validated by running model vs code each run); NumPy matmul/tensordot/slicing and scipy.fft semantics; tolerances above. '
-             'Stand-alone models of forward semantics (Q formula, basis formula, DM lattice) are compared too but only as non-blocking '
-             'fidelity notes: forward semantics belong to C01/C03/C05/C15, and a consistent change of forward and backprop keeps C06 true.'),
+                 'cost functions / phase) over translator-generated terms + dot-product and finite-difference correspondence on the real code',
+    'text': ('PROVED for all inputs (no sorry, standard axioms).  Linear nodes, over every field with an involutive conjugation (C; R with the '
+             'identity), ALL sizes, matrices and data: <y, dft2(f)> = <dft2_backprop(y), f> and the idft2 pair, stated over the TRANSLATED bodies of '
+             'the four executor methods (matrix products / transposes / conjugates of the cached bases, both looked up under the same key); mask '
+             'multiplication; mask-and-back idft.mask.dft against its backprop with the sign / conjugation read off the source; Babinet '
+             'L*(x - T x) end to end (instantiated with the mask-and-back pair, coefficient read off the source); pad/crop with the offsets '
+             'translated from pad2d / crop_center; strided scatter/gather; Fourier filtering against filtering with conj(H) (only contract: ifft = c fft^H, '
+             'c real) and its real-part corollary; the DM.render chain without rotation / resampling in the pure padding and pure cropping '
+             'geometries; the modal sum with real modes (tensordot axes translated); the SpatialGradient2D statements as translated (every axis '
+             'length) with row/column liftings.  Non-linear nodes: intensity (exact quadratic); mean-square error RELATIVE to the translated '
+             'cost/gradient pair (any normalisation convention); phase node composed (HasDerivAt of phi -> Re<gbar, A exp(i k phi)> equals the '
+             'translated backprop, wavenumber translated from both sides); softmax VJP, its batch lifting, shift invariance, Gumbel-softmax '
+             '(1/tau), discrete encoder over softmax AND over Gumbel-softmax; tanh / arctan / softplus / sigmoid; negative log-likelihood; '
+             'bias-and-gain-invariant error in full (envelope argument made rigorous) -- the last seven through the recognised closed forms '
+             '(gen_* pins: a consistent change of convention in both forward and backward of those is reported as a tie failure).  '
+             'TRANSLATED every run: Q / shift / shape wiring of focus/unfocus_fixed_sampling(_backprop) and to_fpm_and_back(_backprop) by symbolic '
+             'execution (backprop legs equal the forward legs up to ring normalisation, for all arguments; tuple-valued samples, method=mdft, '
+             'return_more=False, ndarray mask -- the other argument forms are exercised numerically only), SpatialGradient2D slice statements, '
+             'cost / activation / softmax / encoder / Wavefront-node closed forms, pad/crop offsets, tensordot axes, the ordered operation lists of '
+             'DM.render and DM.render_backprop (each step the adjoint of the mirrored one), live-attribute obligation (no backprop reads state its '
+             'forward does not).  Recognised-shape FLAGS only (Bool, no Lean content): call wiring (*Wired), masked-cost branches, broadcasting '
+             'over the levels axis, forward shapes of softmax / Gumbel / encoder / intensity.  COMPARED on every case: the property\'s own '
+             'predicate on the real code (dot product at 1e-10; Richardson differences at 1e-6 plus the float64 resolution floor) and the real '
+             'backprop against the Lean model given the forward\'s OWN ingredients (cached bases, DM transfer function / lattice / offsets).  '
+             'Exercised numerically only: masked costs, int / list / scalar argument forms, return_more=True (all three arrays and the labels of the '
+             'returned Wavefronts), Wavefront / RichData container inputs, method=czt, upsample != 1 (adjoint resampler), re-assigned node '
+             'parameters and interleaved forwards, complex upstream gradients.  DM rotation: the companion is the inverse warp, NOT an exact adjoint '
+             '(interpolation + tilt Jacobian); tested at 5e-2 on smooth upstream gradients, no theorem.  Geometries on which DM.__init__ / render '
+             'themselves fail (non-square Nact, pad one axis and crop the other) are recorded, not judged.  The model-level theorems '
+             '(mdft_model_adjoint, fpm_model_adjoint, driver_pipelines_agree) are statements about the executable model only.  Not covered: '
+             'floating-point error, scipy.fft internals (the DFT contract is an assumption), complex modes.'),
+    'note': ('Trusted: Lean kernel + propext/Classical.choice/Quot.sound; tools/gen_c06.py (symbolic executor and expression translators; fallbacks '
+             'are printed as TIE-DEGRADED); NumPy matmul/tensordot/slicing and scipy.fft semantics; tolerances above.  Stand-alone models of forward '
+             'semantics (Q formula, basis formula, DM lattice, closed forms of costs and activations) are compared as non-blocking fidelity notes: '
+             'a consistent change of forward and backprop keeps C06 true.'),
 }
